@@ -96,8 +96,17 @@ func (t *IterableType) IsAssignable(o px.Type, g px.Guard) bool {
 			return true
 		}
 		et = o.EntryType()
-	case *stringType, *vcStringType, *scStringType:
+	case *stringType, *vcStringType, *scStringType, *EnumType, *PatternType:
+		// every instance is a string: an iteration over its characters
 		et = OneCharStringType
+	case *StructType:
+		// a Struct is a Hash type: an instance iterates over entries [name, value of that member]
+		for _, e := range o.elements {
+			if !GuardedIsAssignable(t.typ, NewTupleType([]px.Type{e.ActualKeyType(), e.value}, nil), g) {
+				return false
+			}
+		}
+		return true
 	case *TupleType:
 		return tupleAssignableTo(o, t.typ, g)
 	case *IterableType:
